@@ -1052,6 +1052,85 @@ def check_wallet_policy(chk, F):
     chk.floor(R, "wallet-policy texts", n, 40)
 
 
+# ---- R10.10 descriptors with secret keys ---------------------------------------------------------------------------------
+
+def string_key_hooks(m):
+    """`impl MiniscriptKey for String` (the trait's defaults) for calls made through an unresolved T::TargetPk"""
+    from .. import builtins as B
+    for nm, v in (("is_x_only_key", False), ("is_uncompressed", False), ("num_der_paths", 0)):
+        m.hooks["MiniscriptKey::" + nm] = (lambda v_: lambda m_, a, c: v_ if isinstance(B.deref(a[0]), str) else B.NOT_HANDLED)(v)
+
+
+def check_secret_descriptors(chk, F):
+    import hashlib
+    from .. import builtins as B
+    from . import c16
+    R = "R10.10"
+    chk.rule(R, "descriptors whose keys are secret key expressions: Descriptor::parse_descriptor splits the text into the public "
+                "descriptor and a key map, the public descriptor is the text with every secret key replaced by its public "
+                "counterpart (C16 R16.8), and to_string_with_secret puts exactly the original secret expressions back: the text "
+                "round-trips; public keys in the same descriptor are left as they are")
+    pd = [q for q in F.fns if q.endswith("Descriptor::<descriptor::key::DescriptorPublicKey>::parse_descriptor")]
+    ts = [q for q in F.fns if q.endswith("Descriptor::<descriptor::key::DescriptorPublicKey>::to_string_with_secret")]
+    if len(pd) != 1 or len(ts) != 1:
+        chk.fail(R, "anchor", "Descriptor::parse_descriptor / to_string_with_secret not found", kind="unanalysable")
+        return
+    chk.saw(pd[0], ts[0])
+    m, _params = desc_machine(F)
+    km = key_machine(F)
+    for k, v in km.hooks.items():
+        m.hooks.setdefault(k, v)
+    c16.derivation_hooks(m)
+    string_key_hooks(m)
+    m.key_display = True
+    m.max_depth = 160
+
+    def fake(prefix, what):
+        d = hashlib.sha256(repr(what).encode()).hexdigest()
+        return prefix + (d * 2)[:107]
+    # public counterparts as texts of the right shape, so that they print and parse like any extended public key
+    m.hooks["bitcoin::bip32::Xpub::from_priv"] = lambda m_, a, c: ("xkey", fake("xpub", B.deref(a[1])))
+    m.hooks["bitcoin::bip32::Xpriv::fingerprint"] = lambda m_, a, c: PyVec(list(hashlib.sha256(repr(B.deref(a[0])).encode()).digest()[:4]))
+    XPRV = "xprv" + XPUB[4:]
+    X2 = XPUB.replace("A1", "B7")
+    texts = ["wpkh(%s/0/*)" % XPRV, "pkh(%s)" % XPRV, "sh(wpkh([deadbeef/1']%s/2/*))" % XPRV, "wsh(multi(2,%s/1'/*,%s/2/*))" % (XPRV, X2),
+             "wsh(multi(2,%s/2/*,%s/1'/3/*))" % (X2, XPRV), "tr(%s/<0;1>/*,pk(%s/7'/<2;3>/*))" % (X2, XPRV),
+             "tr(%s/0'/1'/*,{pk(%s/1/*),pk(%s/5'/*h)})" % (XPRV, X2, XPRV.replace("A1", "C9")),
+             "sh(wsh(and_v(v:pk(%s/0'/*),older(9))))" % XPRV, "wsh(pk(%s/0/*))" % X2]
+    orig = B.fmt_value
+    B.fmt_value = _key_fmt_value(orig)
+    n = 0
+    try:
+        for t in texts:
+            key = t.replace(XPRV, "XPRV").replace(X2, "X2")
+            n += 1
+            try:
+                r = m.call_path(pd[0], [Term("secp"), t])
+                if r.variant != "Ok":
+                    chk.fail(R, key, "the descriptor does not parse: %s" % repr(r)[:200], where="src/descriptor/mod.rs")
+                    continue
+                d, kmap = r.fields["0"]
+                out, _ = tm.display(m, d, alternate=True)
+                pub = "".join(map(str, out))
+                back = B.deref(m.call_path(ts[0], [d, kmap]))
+                bad = []
+                if "prv" in pub:
+                    bad.append("the public descriptor still shows a private key: %s" % pub[:120])
+                if not isinstance(back, str) or back.split("#")[0] != t:
+                    bad.append("to_string_with_secret gives %s" % (repr(back)[:300].replace(XPRV, "XPRV").replace(X2, "X2"),))
+                if X2 in t and X2 not in pub:
+                    bad.append("a public key of the text is missing from the public descriptor")
+                chk.obligation(R, not bad, key, "; ".join(bad)[:800], where="src/descriptor/mod.rs")
+            except Unsupported as e:
+                chk.fail(R, "unanalysable:" + key, "unanalysable: %s" % e, where=e.where, kind="unanalysable")
+                break
+            except Panic as e:
+                chk.fail(R, key, "panic: %s" % e, where="src/descriptor/mod.rs")
+    finally:
+        B.fmt_value = orig
+    chk.floor(R, "descriptors with secret keys", n, 9)
+
+
 def run(chk):
     F = chk.facts()
     chk.explanation = __doc__
@@ -1081,3 +1160,7 @@ def run(chk):
         chk.guard("R10.7", "keys", check_key_expressions, chk, F)
     if not ONLY or "8" in ONLY:
         chk.guard("R10.8", "wallet-policy", check_wallet_policy, chk, F)
+    if not ONLY or "9" in ONLY:
+        from . import c16
+        chk.guard("R10.9", "secret-key-texts", c16.check_secret_keys, chk, F, "R16.8", "R10.9")
+        chk.guard("R10.10", "secret-descriptors", check_secret_descriptors, chk, F)
